@@ -40,6 +40,10 @@ func main() {
 	r.Assume("start-up priming and the trust-anchor refresh are separate request trees; counting starts after (*Resolver).AutoTA has completed (hook VerifC12TARefreshRuns) and the stack is quiescent")
 	r.Assume("cache prefetch / serve-stale refresh are separate request trees; TTLs (>= 300 s) keep them from starting during a case")
 	r.Assume("key material is random per run (crypto/rand); topologies, budgets and question flags are functions of VERIF_SEED")
+	r.Assume("only datagrams whose question is the root, a root name-server name or a name below the case's own TLD are counted: anything else logged at a scripted server's loopback port was sent by another process of this shared machine (counter foreign_packets_ignored)")
+	r.Assume("whether a request tree crossed a budget is OBSERVED for that very query: the exhaustion counters every ledger publishes on release (hook VerifC12Exhaustions) are read before and after it; nothing is inferred from a run with other settings")
+	r.Assume("a budget crossed only by optional work (DebitBestEffort: detached IPv6 enrichment) legitimately leaves the reply untouched; the over-budget reply is the one whose required work was refused — SERVFAIL carrying sdns's work-budget EDE, or for a non-EDNS client SERVFAIL of a tree that recorded a crossing")
+	r.Assume("a packet overrun or an off/shadow difference is reported only if it reproduces on a second fresh stack with the same configuration (the resolver races servers; the loopback ports are shared with other processes); an overrun that does not reproduce makes the run inconclusive")
 	run := &runner{r: r}
 
 	if raw := r.ReplayCase(); raw != nil {
@@ -60,7 +64,7 @@ func main() {
 		return
 	}
 
-	nTopo := r.N(90, 1080)
+	nTopo := r.N(8*len(kinds), 76*len(kinds))
 	nWork := r.N(600, 6000)
 
 	if b := os.Getenv("C12_BATCH"); b != "" {
@@ -143,6 +147,12 @@ func main() {
 	r.Require("enforce_tcp_packets", 40)
 	r.Require("enforce_queries_with_detached_packets_after_reply", 3)
 	r.Require("enforce_dnssec_budget_servfails", 4)
+	r.Require("enforce_trees_with_signature_checks", int64(nTopo/3))
+	r.Require("enforce_trees_with_ds_digests", int64(nTopo/3))
+	r.Require("enforce_trees_with_nsec3_hashes", 2)
+	for _, reason := range []string{"outbound_queries", "internal_queries", "signature_checks", "ds_digests", "nsec3_hashes", "dnskey_candidates", "rrset_signature_checks"} {
+		r.Require("crossed_reason/"+reason, 1)
+	}
 	r.Require("workapi_cases", int64(nWork))
 	r.Require("workapi_cases_with_expensive_ops", int64(nWork/2))
 	r.Require("workapi_refusals_observed", int64(nWork/4))
